@@ -1,7 +1,229 @@
 package c03
 
-import "verif/core"
+import (
+	"fmt"
+	"sort"
+	"sync"
 
-func regression(r *core.Run) bool { return true }
-func histories(r *core.Run) bool  { return true }
-func pairs(r *core.Run) bool      { return true }
+	"verif/core"
+
+	"github.com/dop251/goja"
+)
+
+// ---------------------------------------------------------------------------------------------------------------------
+// reduced fault alphabet for the history parts: every log position with the JS throw and the Value panic, every native
+// position, one limit per distinct outcome (two limits that cut the execution at the same point are the same transition)
+
+func reducedFaults(entry, shape string) (fs []Fault) {
+	if isStateful(shape) {
+		return faultsFor(entry, shape)
+	}
+	b := getRef().base[callKey(entry, shape)]
+	for k := 1; k <= len(b.Log); k++ {
+		fs = append(fs, Fault{"throw", k}, Fault{"pval", k})
+	}
+	for k := 1; k <= b.NatN; k++ {
+		fs = append(fs, Fault{"nat", k})
+	}
+	seen := map[string]bool{}
+	for l := 0; l <= maxLimit; l++ {
+		c := Call{Entry: entry, Shape: shape, Faults: []Fault{{"limit", l}}}
+		key := "?"
+		if v, ok := freshTab.Load(c.String()); ok {
+			o := v.(*outcome)
+			key = fmt.Sprint(o.Err, len(o.Log))
+			if o.Err == "" {
+				key = "complete"
+			}
+		} else {
+			key = fmt.Sprint("unknown", l)
+		}
+		if !seen[key] {
+			seen[key] = true
+			fs = append(fs, Fault{"limit", l})
+		}
+	}
+	return
+}
+
+var sentinelShapes = []string{"generator", "async", "forofnested", "tryfinally", "nestedrun", "yieldstar", "deep", "withrefs", "classes", "sortnested"}
+
+// historyAlphabet: the transitions applied to every state of the history search.
+func historyAlphabet(thorough bool) (al []Call) {
+	for _, s := range allShapes {
+		for _, en := range entries {
+			al = append(al, Call{Entry: en, Shape: s.Name})
+		}
+	}
+	faulted := func(shape string) {
+		for _, en := range entries {
+			for _, f := range reducedFaults(en, shape) {
+				al = append(al, Call{Entry: en, Shape: shape, Faults: []Fault{f}})
+			}
+		}
+	}
+	for _, s := range stateful {
+		faulted(s.Name)
+	}
+	if thorough {
+		for _, s := range allShapes {
+			if !isStateful(s.Name) {
+				faulted(s.Name)
+			}
+		}
+	} else {
+		for _, s := range sentinelShapes {
+			faulted(s)
+		}
+	}
+	return
+}
+
+type hnode struct {
+	m    mstate
+	path []Call
+}
+
+// restore brings w into the state reached by path: script globals reset (or a brand-new runtime), then the path replayed
+// with every call judged.
+func restore(w *world, path []Call, brandNew bool) (*world, []failure) {
+	var fails []failure
+	if brandNew || w == nil {
+		w = newWorld()
+	} else {
+		if _, err := w.e.reset(goja.Undefined()); err != nil {
+			fails = append(fails, failure{"harness|reset-failed", err.Error()})
+		}
+		w.m = mstate{}
+	}
+	for _, c := range path {
+		_, fs := w.judgeCall(c, false)
+		fails = append(fails, fs...)
+	}
+	return w, fails
+}
+
+// histories: explicit-state search over the runtimes reachable by sequences of API calls. The canonical key of a state is
+// (white-box idle state, probe output, script globals, model state); the first three are asserted equal to the
+// reference after every call, so distinct states differ in the model state. A history is extended only from a state whose
+// key is new. From every state the whole history alphabet is applied.
+func histories(r *core.Run) bool {
+	maxDepth := r.Pick(2, 12)
+	al := historyAlphabet(r.Thorough())
+	const chunk = 96
+	seen := map[string]bool{mstate{}.key(): true}
+	frontier := []hnode{{}}
+	complete := true
+	depthDone := 0
+	nStates, nTrans := 1, int64(0)
+	for depth := 1; depth <= maxDepth && len(frontier) > 0; depth++ {
+		type job struct{ node, lo, hi int }
+		var jobs []job
+		for ni := range frontier {
+			for lo := 0; lo < len(al); lo += chunk {
+				hi := lo + chunk
+				if hi > len(al) {
+					hi = len(al)
+				}
+				jobs = append(jobs, job{ni, lo, hi})
+			}
+		}
+		found := make([][]hnode, len(jobs))
+		var mu sync.Mutex
+		trans := int64(0)
+		ok := r.Parallel(int64(len(jobs)), 1, func(_ int, jlo, jhi int64) {
+			for ji := jlo; ji < jhi; ji++ {
+				j := jobs[ji]
+				n := frontier[j.node]
+				var w *world
+				for ti := j.lo; ti < j.hi; ti++ {
+					if r.Expired() {
+						return
+					}
+					t := al[ti]
+					// first transition of a chunk: brand-new runtime; the others: reset route on the same runtime
+					var fails []failure
+					w, fails = restore(w, n.path, ti == j.lo)
+					hist := append(append([]Call{}, n.path...), t)
+					if len(fails) == 0 {
+						var o *outcome
+						o, fails = w.judgeCall(t, isStateful(t.Shape) || len(t.Faults) > 0)
+						r.Eval(1)
+						if o.Fired > 0 || o.Err == "overflow" {
+							r.NontrivialN(1)
+						}
+						r.Outcome("h|" + faultClass(t) + "|" + o.Err)
+					}
+					if len(fails) > 0 {
+						reportHistory(r, hist, dedupe(fails))
+						w = nil
+						continue
+					}
+					if isStateful(t.Shape) {
+						found[ji] = append(found[ji], hnode{w.m, hist})
+					}
+				}
+				mu.Lock()
+				trans += int64(j.hi - j.lo)
+				mu.Unlock()
+			}
+		})
+		nTrans += trans
+		if !ok {
+			complete = false
+			break
+		}
+		depthDone = depth
+		var next []hnode
+		for _, fs := range found {
+			for _, n := range fs {
+				if k := n.m.key(); !seen[k] {
+					seen[k] = true
+					next = append(next, n)
+				}
+			}
+		}
+		nStates += len(next)
+		frontier = next
+		if len(next) > 0 && r.WantSample(int64(depth)) {
+			r.Sample(map[string]interface{}{"history_search_depth": depth, "new_state": next[0].m.key(), "reached_by": callNames(next[0].path)})
+		}
+	}
+	closed := len(frontier) == 0 && complete
+	var keys []string
+	for k := range seen {
+		keys = append(keys, k)
+	}
+	sort.Strings(keys)
+	r.Set("history_search", map[string]interface{}{
+		"alphabet":            len(al),
+		"depth_completed":     depthDone,
+		"distinct_states":     nStates,
+		"transitions":         nTrans,
+		"state_space_closed":  closed,
+		"state_key":           "VerifIdle + probe + script globals (asserted equal to the reference after every call) + model state CN|G|GB|PR",
+		"reached_model_state": keys,
+	})
+	return complete
+}
+
+// reportHistory confirms a failing history on brand-new runtimes, trying the last call alone first.
+func reportHistory(r *core.Run, hist []Call, fails []failure) {
+	for _, f := range fails {
+		if _, done := confirmed.Load(f.sig); done {
+			r.Violation(f.sig, f.what, nil)
+			continue
+		}
+		last := hist[len(hist)-1:]
+		switch {
+		case !isStateful(last[0].Shape) && confirm(last, f.sig):
+			confirmed.Store(f.sig, true)
+			r.Violation(f.sig, f.what, Case{Part: "history", History: last, Detail: f.what})
+		case confirm(hist, f.sig):
+			confirmed.Store(f.sig, true)
+			r.Violation(f.sig, f.what, Case{Part: "history", History: hist, Detail: f.what})
+		default:
+			r.Violation("nondeterministic|"+f.sig, "failure did not reproduce 5/5 on brand-new runtimes (found on the reset route): "+f.what, Case{Part: "history", History: hist, Detail: f.what})
+		}
+	}
+}
